@@ -221,6 +221,8 @@ struct Any {
     virtual ~Any() {}
     virtual Any* copy() const = 0;
     virtual void assign(const Any& src) = 0;
+    virtual void swap_with(Any& other) = 0;           // std::swap of the two domain objects (move construction + two move assignments, or the copying fallbacks)
+    virtual void move_from(Any& src) = 0;             // d = std::move(src.d): the source stays destructible and assignable, its value is unspecified
     virtual void probe(Sink& s) = 0;
 };
 // construction IN PLACE from the caller's arguments (no intermediate copy: a member that aliases an argument keeps aliasing it)
@@ -231,6 +233,8 @@ template <class D, void (*PROBE)(const D&, Sink&)> struct Box : Any {
     template <class... A> Box(InPlace, A&&... a) : d(std::forward<A>(a)...) {}
     Any* copy() const { return new Box(d); }                         // D's copy constructor
     void assign(const Any& src) { d = static_cast<const Box&>(src).d; }   // D's operator=
+    void swap_with(Any& o) { std::swap(d, static_cast<Box&>(o).d); }
+    void move_from(Any& src) { d = std::move(static_cast<Box&>(src).d); }
     void probe(Sink& s) { PROBE(d, s); }
 };
 template <class D, void (*PROBE)(D&, Sink&)> struct BoxM : Any {           // probes that call non-const members
@@ -239,6 +243,8 @@ template <class D, void (*PROBE)(D&, Sink&)> struct BoxM : Any {           // pr
     template <class... A> BoxM(InPlace, A&&... a) : d(std::forward<A>(a)...) {}
     Any* copy() const { return new BoxM(d); }
     void assign(const Any& src) { d = static_cast<const BoxM&>(src).d; }
+    void swap_with(Any& o) { std::swap(d, static_cast<BoxM&>(o).d); }
+    void move_from(Any& src) { d = std::move(static_cast<BoxM&>(src).d); }
     void probe(Sink& s) { PROBE(d, s); }
 };
 
@@ -416,6 +422,11 @@ static Any* make(const std::string& cls, int P, int V = 0) {
                           return noted(a, d); } }
                       return 0; }
         return 0; }
+    if (cls == "Extension<Modular<double>>") { typedef Extension<Modular<double> > X; typedef Box<X, pr_ext<X> > B; Modular<double> Bf((double)(SMALL[P] == 46337 ? 11 : SMALL[P])); uint64_t ex = (uint64_t)(2 + (P & 1));
+        if (V == 0) return new B(X(Bf, ex));
+        if (V == 3) return dflt_assign<B, X>(X(Bf, ex));
+        if (V == 6) { B* a; uint64_t d; { Modular<double> F(Bf); Indeter Y("Y"); a = new B(InPlace(), F, ex, Y); d = digest(a); F = Modular<double>(13.0); Y = Indeter("Z"); { X b(F, (uint64_t)2, Y); (void)b; } F = Modular<double>(2.0); } return noted(a, d); }
+        return 0; }
     if (cls == "Poly1Dom<Modular<double>,Dense>") { typedef Poly1Dom<Modular<double>, Dense> PD; typedef Box<PD, pr_poly<PD> > B; Modular<double> Bf((double)SMALL[P]);
         if (V == 0) return new B(PD(Bf, Indeter(P & 1 ? "Y" : "X")));
         if (V == 3) return dflt_assign<B, PD>(PD(Bf, Indeter(P & 1 ? "Y" : "X")));
@@ -483,7 +494,7 @@ static const char* C16_CLASSES[] = {"Modular<int32_t>", "Modular<uint32_t>", "Mo
     "Modular<int8_t>", "Modular<uint8_t>", "Modular<int16_t>", "Modular<uint16_t>", "ModularExtended<double>", "ModularExtended<float>",
     "Modular<Integer>", "Modular<ruint<7>>", "ModularBalanced<int32_t>", "ModularBalanced<int64_t>", "ModularBalanced<float>", "ModularBalanced<double>",
     "Montgomery<int32_t>", "Montgomery<ruint<7>>", "Modular<Log16>", "GFqDom<int64_t>", "GFqDom<int32_t>", "GFqExtFast<int64_t>", "GFqExt<int64_t>",
-    "Extension<GFqDom<int64_t>>", "Poly1Dom<Modular<double>,Dense>", "Poly1Dom<GFqDom<int64_t>,Dense>", "Poly1FactorDom<Modular<double>,Dense>",
+    "Extension<GFqDom<int64_t>>", "Extension<Modular<double>>", "Poly1Dom<Modular<double>,Dense>", "Poly1Dom<GFqDom<int64_t>,Dense>", "Poly1FactorDom<Modular<double>,Dense>",
     "Poly1FactorDom<GFqDom<int64_t>,Dense>", "IntRNSsystem<vector>", "RNSsystem<Integer,Modular<double>>", 0};
 static bool known_class(const std::string& cls) { for (int i = 0; C16_CLASSES[i]; ++i) if (cls == C16_CLASSES[i]) return true; return false; }
 
